@@ -37,7 +37,7 @@ CHECKS.update({
              note="Classic (functions), classes and return-type-dependence profiles.",
              ref="DESIGN.md §4 C10"),
  "C13": dict(technique="coverage-guided fuzzing (libFuzzer, oracle inside the target, ASan+UBSan) + systematic token-level mutation enumeration and Hypothesis mutants with a validity-predicate oracle",
-             text="Every single-token deletion/truncation and class-directed replacement of 269 seed programs, every identifier swapped for another identifier of the same program and every base-class name for every class of the program (inheritance cycles, self-inheritance), random multi-edit mutants, multi-file trees with a mutated member and a libFuzzer campaign are pushed through both the direct and the loader front-end paths; each must terminate with acceptance or exactly one Lexical/Parse/Semantic diagnostic, no raw exception, no sanitizer report, and leave the analyser reusable.",
+             text="Every single-token deletion/truncation and class-directed replacement of 274 seed programs (269 from the repository, 5 written for generic classes; every seed also runs unmutated), every identifier swapped for another identifier of the same program and every base-class name for every class of the program (inheritance cycles, self-inheritance), random multi-edit mutants, multi-file trees with a mutated member and a libFuzzer campaign are pushed through both the direct and the loader front-end paths; each must terminate with acceptance or exactly one Lexical/Parse/Semantic diagnostic, no raw exception, no sanitizer report, and leave the analyser reusable.",
              note="Inputs bounded to 4 KiB and nesting 64; libFuzzer runs are only approximately reproducible, artifacts are re-checked by the deterministic oracle.",
              ref="DESIGN.md §4 C13", engine="libFuzzer+hypothesis+verifdrv"),
  "C14": dict(technique="property-based round-trip testing: generated syntax trees rendered with minimal/redundant parentheses and parsed back, compared as S-expressions",
